@@ -14,6 +14,7 @@ recoveries, sync answers and a raft group that follows the metadata.
 import json
 import os
 import re
+import threading
 
 import vcheck as V
 import _place as P
@@ -23,10 +24,10 @@ GUARDS = ["G_OnePending", "G_Quorum", "G_Reachable", "G_SyncAdd", "G_NoAddPendin
 TEMPLATE = os.path.join(V.VERIF, "spec", "MC_ZCoord.cfg")
 
 
-def make_cfg(ctx, name, N, R, max_epoch, max_id, off=None, count=False, max_down=64, max_unsynced=64):
+def make_cfg(ctx, name, N, R, max_epoch, max_id, off=None, count=False, max_down=64, max_unsynced=64, init_k=None):
     """One cfg from the template spec/MC_ZCoord.cfg (constants replaced textually)."""
     c = open(TEMPLATE).read()
-    sub = {"N": N, "R": R, "MaxEpoch": max_epoch, "MaxID": max_id, "MaxDown": max_down, "MaxUnsynced": max_unsynced,
+    sub = {"N": N, "R": R, "InitK": init_k or R, "MaxEpoch": max_epoch, "MaxID": max_id, "MaxDown": max_down, "MaxUnsynced": max_unsynced,
            "CountCalls": "TRUE" if count else "FALSE"}
     for k, v in sub.items():
         c, n = re.subn(r"(?m)^  %s = \S+$" % k, "  %s = %s" % (k, v), c)
@@ -55,16 +56,7 @@ def classify(seg, names):
             kind = "finish"
         elif len(r["rem"]) > len(prev["rem"]):
             kind = "mark"
-    last_call = ""
     return {"event": e.get("ev"), "write": kind, "broken": "+".join(names)}
-
-
-def validate(ctx, name, d, R, stats, samples, script=None):
-    files = P.part_files(d)
-    for f, consumed, mism, res in P.validate_parts(ctx, "ZCoordTrace", "ZCoordTrace.cfg", files, name, n=4,
-                                                   timeout=900, heap="2g") if files else []:
-        pass
-    return
 
 
 def run_trace(ctx, name, f, R):
@@ -72,10 +64,20 @@ def run_trace(ctx, name, f, R):
                                 env={"ZR_R": str(R)}, heap="2g")
 
 
+_lock = threading.Lock()
+
+
 def replay_and_validate(ctx, zr, job, stats, samples):
     """job: dict(name, N, R, num, depth, calm, seed).  TLC simulate -> coordsim -> TLC validate."""
+    out = _replay(ctx, zr, job)
+    with _lock:
+        _merge(ctx, job, out, stats, samples)
+
+
+def _replay(ctx, zr, job):
     name, N, R = job["name"], job["N"], job["R"]
-    cfg = make_cfg(ctx, "sim_%s.cfg" % name, N, R, 16, R + 12, count=True,
+    K = job.get("K") or R
+    cfg = make_cfg(ctx, "sim_%s.cfg" % name, N, R, 16, R + 12, count=True, init_k=K,
                    max_down=1 if job["calm"] else 64, max_unsynced=1 if job["calm"] else 64)
     simdir = ctx.sub("sim-" + name)
     r = V.tlc(ctx, "MC_ZCoord", os.path.basename(cfg), workers=1, timeout=300,
@@ -84,24 +86,30 @@ def replay_and_validate(ctx, zr, job, stats, samples):
     nfiles = len([x for x in os.listdir(simdir) if x.startswith("sim_")])
     if nfiles == 0:
         ctx.log("simulate %s produced no behaviour: %s" % (name, (r.error or r.out[-300:])))
-        ctx.skipped += 1
-        return
+        return None
     if r.violated:
         raise V.Inconclusive("simulation of %s violated %s (broken spec)" % (name, r.violated))
-    d, summ = P.drive(ctx, zr, "coordsim", name, ["-sim", simdir, "-R", str(R), "-N", str(N), "-seed", str(job["seed"])],
+    d, summ = P.drive(ctx, zr, "coordsim", name, ["-sim", simdir, "-R", str(R), "-N", str(N), "-K", str(K), "-seed", str(job["seed"])],
                       timeout=1800)
     if summ is None:
-        ctx.skipped += 1
-        return
+        return None
     f = os.path.join(d, "t.0.ndjson")
     consumed, mism, res = run_trace(ctx, "val-" + name, f, R)
     if res.timed_out:
         consumed, mism, res = run_trace(ctx, "val2-" + name, f, R)
     if not consumed and not mism:
         if res.timed_out:
-            ctx.skipped += 1
-            return
+            return None
         raise V.Inconclusive("trace validation of %s did not complete: %s" % (f, res.error or res.out[-400:]))
+    return dict(d=d, f=f, summ=summ, mism=mism)
+
+
+def _merge(ctx, job, out, stats, samples):
+    if out is None:
+        ctx.skipped += 1
+        return
+    name, N, R = job["name"], job["N"], job["R"]
+    d, f, summ, mism = out["d"], out["f"], out["summ"], out["mism"]
     events = V.read_ndjson(f)
     stats["events"] += len(events)
     stats["segments"] += summ["behaviours"]
@@ -144,18 +152,33 @@ def replay_and_validate(ctx, zr, job, stats, samples):
                          script={"coordsim": {"R": R, "N": N, "segment": seg[0].get("info"), "events": labels[-40:]}})
 
 
+# a good trace recorded once from the unchanged tree (coordsim -script, R=3 N=4): mark a lost replica,
+# finish after it left the raft group, add a replacement, add a surplus replica, planned removal.
+# The self-test corrupts copies of it, so it does not depend on the tree under test.
+FIXTURE = [{"N": 4, "R": 3, "alive": [1, 2, 3, 4], "ev": "reset", "info": "script R=3 N=4"},
+           {"ev": "init", "rec": {"nodes": [1, 2, 3], "ids": [[1, 1], [2, 2], [3, 3]], "rem": [], "maxid": 3, "epoch": 2}},
+           {"ev": "down", "n": 2},
+           {"ev": "update", "ok": True, "oldgen": 2, "rec": {"nodes": [1, 2, 3], "ids": [[1, 1], [2, 2], [3, 3]], "rem": [[2, 2]], "maxid": 3, "epoch": 3}},
+           {"err": "", "ev": "call", "n": 0, "op": "migrate", "src": "cur"},
+           {"ev": "members", "m": [[1, 1], [3, 3]]},
+           {"ev": "update", "ok": True, "oldgen": 3, "rec": {"nodes": [1, 3], "ids": [[1, 1], [3, 3]], "rem": [], "maxid": 3, "epoch": 4}},
+           {"err": "", "ev": "call", "n": 0, "op": "finish", "src": "cur"},
+           {"ev": "update", "ok": True, "oldgen": 4, "rec": {"nodes": [1, 3, 4], "ids": [[1, 1], [3, 3], [4, 4]], "rem": [], "maxid": 4, "epoch": 5}},
+           {"err": "", "ev": "call", "n": 0, "op": "migrate", "src": "cur"},
+           {"ev": "members", "m": [[1, 1], [3, 3], [4, 4]]},
+           {"ev": "up", "n": 2},
+           {"ev": "update", "ok": True, "oldgen": 5, "rec": {"nodes": [1, 3, 4, 2], "ids": [[1, 1], [2, 5], [3, 3], [4, 4]], "rem": [], "maxid": 5, "epoch": 6}},
+           {"err": "", "ev": "call", "n": 2, "op": "add", "src": "cur"},
+           {"ev": "members", "m": [[1, 1], [2, 5], [3, 3], [4, 4]]},
+           {"ev": "update", "ok": True, "oldgen": 6, "rec": {"nodes": [1, 3, 4, 2], "ids": [[1, 1], [2, 5], [3, 3], [4, 4]], "rem": [[1, 1]], "maxid": 5, "epoch": 7}},
+           {"err": "", "ev": "call", "n": 1, "op": "remove", "src": "cur"}]
+
+
 def selftest(ctx, zr, stats):
-    """Binding self-test: a scripted good run, then corruptions of it that TLC must reject."""
-    script = ('NodeDown(2);Migrate("cur");RaftLeave(2);Finish("cur");Migrate("cur");RaftJoin(4);'
-              'NodeUp(2);PlanAdd(2,"cur");RaftJoin(2);PlanRemove(1,"cur")')
-    d, summ = P.drive(ctx, zr, "coordsim", "selftest", ["-script", script, "-R", "3", "-N", "4"])
-    if summ is None:
-        raise V.Inconclusive("self-test script did not run")
-    f = os.path.join(d, "t.0.ndjson")
-    good = V.read_ndjson(f)
+    """Binding self-test: corruptions of a recorded good trace that TLC must reject (and the
+    untouched trace must be accepted)."""
+    good = json.loads(json.dumps(FIXTURE))
     ups = [i for i, e in enumerate(good) if e["ev"] == "update" and e["ok"]]
-    if len(ups) < 5:
-        raise V.Inconclusive("self-test script produced only %d writes: %s" % (len(ups), good))
 
     def var(fn):
         t = json.loads(json.dumps(good))
@@ -225,27 +248,48 @@ def run(ctx):
     quick = ctx.quick()
     # ---- (A) exhaustive instances + spec mutants
     if quick:
-        inst = [(3, 1, 5), (3, 2, 5), (4, 3, 5)]
+        inst = [(3, 1, 5, 1), (3, 2, 5, 2), (4, 3, 5, 3), (4, 3, 5, 2)]
         mut_inst = (4, 3, 5)
     else:
-        inst = [(3, 1, 7), (4, 2, 7), (5, 3, 6), (5, 4, 6), (6, 5, 6), (6, 3, 6)]
+        inst = [(6, 5, 5, 5), (6, 5, 5, 3), (5, 4, 6, 4), (5, 4, 6, 3), (5, 3, 6, 3), (4, 3, 7, 2), (4, 2, 7, 2),
+                (3, 1, 7, 1)]     # (N, R, MaxEpoch, InitK), big ones first
         mut_inst = (4, 3, 6)
     jobs = []
-    for N, R, E in inst:
-        jobs.append(("mc-N%d-R%d" % (N, R), make_cfg(ctx, "mc_N%d_R%d.cfg" % (N, R), N, R, E, R + 3), None))
+    for N, R, E, K in inst:
+        nm = "mc-N%d-R%d" % (N, R) + ("" if K == R else "-K%d" % K)
+        jobs.append((nm, make_cfg(ctx, nm.replace("-", "_") + ".cfg", N, R, E, R + 3, init_k=K), None))
     for g in GUARDS:
         jobs.append(("mut-" + g, make_cfg(ctx, "mut_%s.cfg" % g, mut_inst[0], mut_inst[1], mut_inst[2], mut_inst[1] + 3, off=g), g))
 
+    cov_inst = "mc-N4-R3" if quick else "mc-N4-R2"      # per-action coverage is collected on this instance
+
     def mc(j):
         name, cfg, g = j
-        return j, V.tlc(ctx, "MC_ZCoord", os.path.basename(cfg), workers=2 if g else (4 if quick else 6),
-                        timeout=300 if quick else 1500, files={cfg: os.path.basename(cfg)}, tag=name)
-    results = V.parallel(mc, jobs, n=4)
-    model_runs, mutants = [], {}
+        kw = dict(timeout=300 if quick else 1200, files={cfg: os.path.basename(cfg)},
+                  coverage=(name == cov_inst), heap="1g" if g else ("2g" if quick else "4g"))
+        r = V.tlc(ctx, "MC_ZCoord", os.path.basename(cfg), workers=2 if g else (4 if quick else 6), tag=name, **kw)
+        if not r.ok and not r.violated and not r.timed_out and "Error:" not in r.out:
+            # no verdict at all: the JVM was killed (memory pressure from other jobs) - retry once, smaller
+            ctx.log("%s: TLC ended without a verdict (rc=%s); retrying once" % (name, r.rc))
+            r = V.tlc(ctx, "MC_ZCoord", os.path.basename(cfg), workers=2, tag=name + "-retry", **kw)
+            if not r.ok and not r.violated and "Error:" not in r.out:
+                r.timed_out = True          # counted as "could not run", never a verdict
+        return j, r
+    results = V.parallel(mc, jobs, n=4 if quick else 3)
+    model_runs, mutants, action_cov = [], {}, {}
     best = None
     for (name, cfg, g), r in results:
         if g is None:
             V.require_model_ok(ctx, r, name)
+            if name == cov_inst and r.ok:
+                for m in re.finditer(r"(?m)^<([A-Za-z]+) line \d+, col \d+ to line \d+, col \d+ of module ZCoord>: (\d+):(\d+)", r.out):
+                    if m.group(1) not in ("CInit", "Bounded"):
+                        action_cov[m.group(1)] = max(action_cov.get(m.group(1), 0), int(m.group(3)))
+                # every action of the model must have been taken at least once
+                dead = [a2 for a2 in ("Migrate", "PlanAdd", "PlanRemove", "Finish", "CheckRound", "Snapshot", "NodeDown",
+                                      "NodeUp", "SyncLost", "SyncBack", "RaftJoin", "RaftLeave") if action_cov.get(a2, 0) == 0]
+                if dead:
+                    raise V.Inconclusive("actions never taken in %s: %s (vacuous model)" % (name, dead))
             model_runs.append(dict(cfg=name, **r.summary()))
             if r.ok and (best is None or r.distinct > best.distinct):
                 best = r
@@ -264,17 +308,20 @@ def run(ctx):
     samples = []
     rjobs = []
     if quick:
-        plan = [(3, 1, 40), (3, 2, 60), (4, 2, 40), (4, 3, 80), (5, 3, 40)]
+        plan = [(3, 1, 1, 60), (3, 2, 2, 80), (4, 2, 2, 60), (4, 3, 3, 120), (4, 3, 2, 60), (5, 3, 3, 80),
+                (5, 4, 4, 60), (5, 4, 3, 60), (6, 5, 5, 60), (6, 5, 3, 80)]
         depth = 40
     else:
-        plan = [(3, 1, 300), (4, 1, 200), (3, 2, 400), (4, 2, 500), (4, 3, 900), (5, 3, 700), (6, 3, 300),
-                (5, 4, 600), (6, 4, 400), (6, 5, 700)]
+        plan = [(3, 1, 1, 450), (4, 1, 1, 300), (3, 2, 2, 600), (4, 2, 2, 750), (4, 3, 3, 1200), (4, 3, 2, 450),
+                (5, 3, 3, 750), (5, 3, 2, 300), (6, 3, 3, 450), (5, 4, 4, 600), (5, 4, 3, 450), (6, 4, 3, 450),
+                (6, 5, 5, 600), (6, 5, 4, 300), (6, 5, 3, 450)]
         depth = 50
-    for N, R, num in plan:
+    for N, R, K, num in plan:           # (nodes, replication factor, replicas of the initial layout, behaviours)
         for calm in (True, False):
             chunks = 1 if quick else max(1, num // 150)
             for c in range(chunks):
-                rjobs.append(dict(name="N%dR%d%s%d" % (N, R, "c" if calm else "w", c), N=N, R=R, num=num // chunks // 2 + 1,
+                rjobs.append(dict(name="N%dR%dK%d%s%d" % (N, R, K, "c" if calm else "w", c), N=N, R=R, K=K,
+                                  num=num // chunks // 2 + 1,
                                   depth=depth, calm=calm, seed=ctx.seed * 100 + c))
     V.parallel(lambda j: replay_and_validate(ctx, zr, j, stats, samples), rjobs, n=8 if quick else 12)
     if stats["segments"] == 0:
@@ -285,7 +332,7 @@ def run(ctx):
         states=best.distinct, transitions=best.generated,
         traces_validated_against_impl=stats["segments"],
         samples=samples or [{"note": "no sample"}],
-        model_runs=model_runs, spec_mutants_refuted_by=mutants,
+        model_runs=model_runs, spec_mutants_refuted_by=mutants, model_action_coverage=action_cov,
         events_validated=stats["events"], labels_replayed=stats["labels"],
         real_writes_by_kind=stats["writes"], real_writes_by_R=stats["by_R"],
         distinct_nontrivial=len(stats["distinct_writes"]),
@@ -296,7 +343,9 @@ def run(ctx):
         checker_cmd="tlc -config ZCoordTrace.cfg ZCoordTrace (ZR_TRACE=<trace> ZR_R=<R>)",
     )
     V.write_evidence(ctx, "model_checking", cov, assumptions=[
-        "one partition per namespace; the replication factor is fixed within a scenario",
+        "one partition per namespace; the replication factor is fixed within a scenario; scenarios start from "
+        "a layout of K replicas on nodes 1..K, K = R or a smaller strict majority of R (a partition that lost "
+        "replicas earlier)",
         "a node that is down neither is in the coordinator's node table nor answers HTTP (the two are not varied "
         "independently); every answering node reports the same raft membership",
         "addNamespaceToNode / removeNamespaceFromNode are called in their callers' context (after the real "
